@@ -171,3 +171,74 @@ def steal_stack(on):
     from breezy import config
     return config.MemoryStack(
         b"locks.steal_dead = %s\n" % (b"True" if on else b"False"))
+
+
+# ------------------------------------------------------------------ C26
+# A seam transport that (a) calls HOOK(transport, name, relpath, dst) right
+# before an operation is carried out - i.e. after the scheduler gave the baton
+# back, so the hook sees the disk exactly as the operation will - and (b) can
+# imitate the server bug documented in LockDir._attempt_lock (Launchpad's sftp
+# server, bug 498378): renaming a directory onto an existing directory
+# "succeeds" by moving it inside.
+
+LOCK_PREFIX = "vfl+"
+HOOK = None
+RENAME_INTO = False
+
+
+class LockSeamTransport(ft.SeamTransport):
+    @classmethod
+    def _get_url_prefix(cls):
+        return LOCK_PREFIX
+
+    def _do(self, name, rel, fn, size=None, mutating=True, partial_fn=None):
+        def fn2():
+            h = HOOK
+            if h is not None:
+                h(self, name, rel, None)
+            return fn()
+        return ft.SeamTransport._do(self, name, rel, fn2, size, mutating,
+                                    partial_fn)
+
+    def rename(self, a, b):
+        def fn():
+            h = HOOK
+            if h is not None:
+                h(self, "rename", a, b)
+            if RENAME_INTO:
+                import stat as _stat
+                from dromedary import errors as de
+                try:
+                    st = self._decorated.stat(b)
+                except de.PathError:
+                    st = None
+                if st is not None and _stat.S_ISDIR(st.st_mode):
+                    return self._decorated.rename(
+                        a, b + "/" + a.rstrip("/").rsplit("/", 1)[-1])
+            return self._decorated.rename(a, b)
+        return ft.SeamTransport._do(self, "rename", a, fn)
+
+
+_lock_installed = False
+
+
+def lock_transport(path):
+    """A fresh vfl+file:// transport object for `path`."""
+    global _lock_installed
+    import dromedary
+    from breezy import transport as _t, urlutils
+    if not _lock_installed:
+        dromedary.register_transport(LOCK_PREFIX, LockSeamTransport)
+        _lock_installed = True
+    return _t.get_transport(LOCK_PREFIX + urlutils.local_path_to_url(path))
+
+
+@contextlib.contextmanager
+def lock_hook(fn, rename_into=False):
+    global HOOK, RENAME_INTO
+    old = (HOOK, RENAME_INTO)
+    HOOK, RENAME_INTO = fn, rename_into
+    try:
+        yield
+    finally:
+        HOOK, RENAME_INTO = old
